@@ -163,7 +163,21 @@ def run(chk):
     full = _maximal(behs)
     chk.extra['model']['maximal_behaviours_replayed'] = len(full)
     sim = simulate(chk, 'MC_System_%s_sim.cfg' % pid, 120 if tier == 'quick' else 4000, 9, chk.seed)
-    allb = full + sim
+    # the EXTENSION instance: the rest of the deriving operations C20 lists (bitwise operators and masks, expanding shifts, NumPy
+    # reductions, constants, in-place operators, raw stores, subtraction) with the mutations that expose sharing.  TLC checks the
+    # action properties on it (ShiftExact, ReduceExact, BitKeepsFormat, IOpRebinds, NonInterference, Sticky, FlagIff ...); its
+    # transition cover is replayed like the main one (thorough: all of it; quick: a seeded slice)
+    _, rx = chk.model_check('MC_System.tla', 'MC_System_X_%s.cfg' % tier, label='MC_System (extension instance)', heap='12g', timeout=3000,
+                            sample_target=(150000 if tier == 'thorough' else None), seed=None, keep_out=False)
+    behx = _maximal(behaviours_from(rx.printed))
+    rx.printed = []
+    if tier == 'quick':
+        # (a seeded slice of the cover per run: a tenth for C20, a twentieth for C02 / C04; the thorough tier replays all of it)
+        k = 10 if pid == 'C20' else 20
+        behx = sorted(behx, key=lambda h: json.dumps(h, sort_keys=True))[chk.seed % k::k]
+    chk.extra['model']['extension_instance'] = {'distinct_states': rx.distinct, 'transitions': rx.generated, 'maximal_behaviours_replayed': len(behx)}
+    simx = simulate(chk, 'MC_System_X_sim.cfg', 60 if tier == 'quick' else 2000, 9, chk.seed + 1)
+    allb = full + sim + behx + simx
     indexed = list(enumerate(allb, 1))
     chk.exhaustive = True
     flagrows = []
